@@ -14,7 +14,15 @@ if ! git -C "$wt" apply "$d/patch.diff" 2>/dev/null; then echo "$d: PATCH-DOES-N
 mut_rc=$(run_demo mutant)
 tests="skipped"; missing="[]"
 if [ "$notests" != "--no-tests" ]; then
-  (cd "$wt" && env -u ATOMICA_VERIF PYTHONPATH="$wt" /venv/bin/python -m pytest -ra -q -p no:cacheprovider --timeout=900 --continue-on-collection-errors --junitxml="$wt/junit_confirm.xml" > "$d/tests.log" 2>&1)
+  # only the pinned baseline tests (stable_pass of /root/.vp/BASELINE.json) are run: they are what "the existing tests pass" is measured by
+  (cd "$wt" && env -u ATOMICA_VERIF PYTHONPATH="$wt" /venv/bin/python - > "$d/tests.log" 2>&1 <<'PY'
+import json, subprocess, sys, os
+base = json.load(open('/root/.vp/BASELINE.json'))['stable_pass']
+files = sorted({b.split('::')[0].replace('.', '/') + '.py' for b in base})
+files = [f for f in files if os.path.exists(f)]
+sys.exit(subprocess.call([sys.executable, '-m', 'pytest', '-q', '-p', 'no:cacheprovider', '--timeout=900', '--continue-on-collection-errors', '--junitxml=junit_confirm.xml'] + files))
+PY
+  )
   missing=$(/venv/bin/python - "$wt/junit_confirm.xml" <<'PY'
 import json, sys, xml.etree.ElementTree as ET
 base=set(json.load(open('/root/.vp/BASELINE.json'))['stable_pass'])
